@@ -124,7 +124,7 @@ man = {
 }
 # additions made while closing the gaps shown by the seeded-change campaign (DESIGN.md §7): id -> (technique suffix, text suffix)
 EXTRA = {
- 'C21': ('', ' Shapes include a bundle without any optional parameter. Every other driving value is wrapped in multi-byte characters.'),
+ 'C21': ('', ' Shapes include a bundle without any optional parameter. A third of the driving values is wrapped in multi-byte characters, another third in white space (which is part of the value).'),
  'C05': ('', ' The path universe holds a name sorting before .datamon; for an identical pair the target is a second bundle holding the same tree. For A != B also the history: download X (tree A), delete X, upload B under the preserved ID X, diff and update the old copy. A sync loop: one remote handle retargeted through its BundleID field and one local copy follow a chain through all 27 trees with the empty tree in between. Diff is evaluated with each side given as an archive bundle or as a local copy (four combinations).'),
  'C04': ('', ' The path universe holds a name sorting before .datamon. Explicit key lists also contain a generated path that is present in the source.'),
  'C01': ('', ' Also: a second Put into a store that already holds a damaged copy (emptied; with a CRC-reporting backend also cut short / altered) of each blob of the content is acknowledged only if the content then reads back exactly. Large leaf sizes (one above the 2 MiB default in the quick tier) get a small Read / ReadAt battery.'),
@@ -144,7 +144,7 @@ EXTRA = {
  'C17': ('', ' Streamed mounts are run with hash verification off and on; every tree holds a file whose size is a multiple of the leaf size. One long name is listed between short ones (directory entries of different sizes). Every case runs under a 3-minute watchdog; the check stops after three stuck cases.'),
  'C18': ('; BFS levels run on all cores, guided deepening', ' States first reached at the depth bound whose history released an inode (unlinked and forgotten) are explored 2 (thorough 1) levels further; the staging files with their content are part of the state key. getattr compares type, size and link count with the tree model. The inode allocator is also explored on its own (verif hook): BFS over alloc / free histories with at most 4 live inodes to depth 12 (thorough 16).'),
  'C19': ('', ' Gaps of 0 / 1 s / 25 min between appends; synthetic start tokens at the edges of the 20-minute window; every entry whose append started within 20 minutes before the start token\'s time must be listed. Half-second gaps starting 600 ms into a second cross second boundaries with less than a second elapsed.'),
- 'C20': ('', ' The canceled diamond state must share the final descriptor path.'),
+ 'C20': ('', ' The canceled diamond state must share the final descriptor path. Consumable-store paths also round-trip for bundle IDs ending in each of the 62 KSUID characters.'),
  'C22': ('', ' Also a second fixed-point search over writes between 12 boundaries straddling the byte boundaries of the 8-byte marker keys (256, 512, 65536, 2^32, 2^40). Two boundaries lie beyond the exact range of float64 (2^53+3, 2^62+1).'),
 }
 
